@@ -10,6 +10,6 @@ def routerLocks : List (ROp × Guard) :=
    (.shrink, .write),
    (.exists_, .read),
    (.depth, .read),
-   (.unsubscribe, .unknown)]
+   (.unsubscribe, .write)]
 
 end Tulz.Generated
